@@ -430,7 +430,7 @@ def u_multitask_acc(h, fit_intercept, X='corr32', sparse=False):
         h.ensure('extrapolation-epoch-never-increases-objective', float(F6) <= float(F5) + 1e-9 * (1 + abs(float(F5))))
 
 
-def u_pn_linesearch(h, X, fit_intercept, group=False, layout='rev'):
+def u_pn_linesearch(h, X, fit_intercept, group=False, layout='rev', group_datafit='LogisticGroup'):
     """the real backtracking line search of ProxNewton (dense and CSC twins) / GroupProxNewton from an arbitrary
     consistent state along an ARBITRARY direction: buffers stay consistent, the move is t*delta for one t for
     coefficients, intercept and model fit alike, an accepted step does not increase the objective, the returned
@@ -448,7 +448,10 @@ def u_pn_linesearch(h, X, fit_intercept, group=False, layout='rev'):
         grp_idx = np.array([i for g in lay for i in g], dtype=np.int32)
         pen = h.penalty(Pm.WeightedGroupL2, alpha=al, weights=h.const(np.ones(len(lay))), grp_ptr=grp_ptr, grp_indices=grp_idx)
         # the group prox-Newton solver needs raw_grad: LogisticGroup is the group datafit that offers it
-        df_ls = h.datafit(Dm.LogisticGroup, grp_ptr=grp_ptr, grp_indices=grp_idx)
+        # (with group_datafit='Quadratic' the search runs on a polynomial loss -- Quadratic offers raw_grad / raw_hessian, so
+        #  GroupProxNewton accepts it -- and every obligation, including the acceptance test, is decidable)
+        df_ls = (h.datafit(Dm.LogisticGroup, grp_ptr=grp_ptr, grp_indices=grp_idx) if group_datafit == 'LogisticGroup'
+                 else h.datafit(Dm.Quadratic))
         ws = np.arange(len(lay))
         order = [j for g in ws for j in lay[g]]
     else:
@@ -456,7 +459,7 @@ def u_pn_linesearch(h, X, fit_intercept, group=False, layout='rev'):
         df_ls = h.datafit(Dm.Quadratic)
         ws = np.array([1, 0][:p], dtype=np.int64)
         order = [int(j) for j in ws]
-    y = h.vec('y', n) if not group else h.const(np.array([1.0, -1.0, 1.0, -1.0][:n]))
+    y = h.vec('y', n) if (not group or group_datafit != 'LogisticGroup') else h.const(np.array([1.0, -1.0, 1.0, -1.0][:n]))
     nw = p + (1 if fit_intercept else 0)
     w0 = h.vec('w', nw)
     b0 = w0[p] if fit_intercept else 0.0
@@ -537,6 +540,23 @@ def u_pn_linesearch(h, X, fit_intercept, group=False, layout='rev'):
         if h.mode == 'sym' and not group:     # (logistic loss: descent needs convexity of exp/log, see C09 + lemma)
             accepted = h.and_(at_t, h.lt(pen_diff + t * lin, 0))
             h.ensure('accepted-step-decreases-objective[t=%s]' % t, h.implies(accepted, h.le(F1, F0)))
+    # the documented test  pen(w + t d) - pen(w) + t * <grad f(w + t d), d> < 0  (intercept direction included) decides the
+    # FIRST trial: when it holds at t = 1 the full step is taken (no spurious backtracking), and conversely
+    if h.mode == 'sym' and not group:      # (LogisticGroup: the test contains exp atoms in denominators -- undecided in minutes)
+        Xw_t = h.arr([Xw0[i] + Xdelta[i] for i in range(n)])
+        rg_t = df_ls.raw_grad(y, Xw_t)
+        if True:
+            lin_t = sum(sum(Xc[i, j] * rg_t[i] for i in range(n) if Xc[i, j] != 0) * delta[jj] for jj, j in enumerate(order))
+        if fit_intercept:
+            lin_t = lin_t + delta[k] * sum(rg_t[i] for i in range(n))
+        w_t = [w0[j] for j in range(p)]
+        for jj, j in enumerate(order):
+            w_t[j] = w0[j] + delta[jj]
+        Q1 = pen.value(h.arr(w_t)) - pen.value(h.arr([w0[j] for j in range(p)])) + lin_t
+        full = h.all_([h.eq(w1[j], w0[j] + delta[jj]) for jj, j in enumerate(order)]
+                      + ([h.eq(w1[p], w0[p] + delta[k])] if fit_intercept else []))
+        nontrivial = h.any_([h.ne(delta[jj], 0) for jj in range(len(delta))])
+        h.ensure('full-step-taken-when-the-test-passes-at-t=1', h.implies(h.and_(h.lt(Q1, 0), nontrivial), full))
     if not group:
         same = h.true()
         for jj in range(nw):
